@@ -56,6 +56,19 @@ def strip_goal(goal):
         if z3.is_implies(g):
             rec(g.arg(1), hyps + [g.arg(0)])
             return
+        if z3.is_not(g) and z3.is_quantifier(g.arg(0)) and g.arg(0).is_exists():
+            # not exists x. B   ==   forall x. not B
+            e = g.arg(0)
+            consts = [z3.Const(f"sk!{e.var_name(i)}!{next(_sk)}", e.var_sort(i)) for i in range(e.num_vars())]
+            rec(z3.Not(z3.substitute_vars(e.body(), *reversed(consts))), hyps)
+            return
+        if z3.is_not(g) and z3.is_and(g.arg(0)):
+            # not (A /\ B /\ ...)  is proved by refuting the conjuncts taken as hypotheses
+            kids = []
+            for c in g.arg(0).children():
+                kids.extend(split_and(c))
+            out.append((hyps + kids, z3.BoolVal(False)))
+            return
         if is_forall(g):
             n = g.num_vars()
             consts = []
@@ -264,10 +277,12 @@ class Instantiator:
     the query (z3's own E-matching does not match modulo arithmetic offsets),
     plus the bounds of its guard.  Instantiation only weakens hypotheses: sound."""
 
-    def __init__(self, ground, quants, neg):
+    def __init__(self, ground, quants, neg, seeds=None):
         self.apps = {}
         self.aseen = set()
-        ground_apps(ground + [neg], self.apps, self.aseen)
+        # seeds: start matching from the terms of the goal side only (goal-directed); new terms
+        # produced by the instances are followed in later rounds
+        ground_apps((list(seeds) if seeds is not None else ground) + [neg], self.apps, self.aseen)
         self.all_foralls = [q for q in quants if is_forall(q)]
         self.seen_f = {q.get_id() for q in self.all_foralls}
         self.done = set()
@@ -324,7 +339,33 @@ class Instantiator:
                     _INST_CACHE[key] = parts
                     _KEEP.append(q)
                     _KEEP.extend(combo)
+                parts2 = []
                 for c in parts:
+                    if z3.is_not(c) and z3.is_and(c.arg(0)) and has_quant(c):
+                        # De Morgan, so that quantified conjuncts surface as disjuncts
+                        c = z3.Or(*[ch.arg(0) if z3.is_not(ch) else z3.Not(ch) for ch in c.arg(0).children()])
+                    # existential consequence: name the witness (skolemise)
+                    if z3.is_quantifier(c) and c.is_exists():
+                        parts2.extend(_skolemize_exists(c))
+                    elif z3.is_not(c) and is_forall(c.arg(0)):
+                        parts2.extend(_skolemize_not_forall(c.arg(0)))
+                    elif z3.is_or(c) and has_quant(c):
+                        # G \/ exists q. B   ==   exists q. (G \/ B): name the witness inside the disjunction
+                        kids, changed = [], False
+                        for ch in c.children():
+                            if z3.is_quantifier(ch) and ch.is_exists():
+                                kids.append(z3.And(*_skolemize_exists(ch)) if _skolemize_exists(ch) else z3.BoolVal(True))
+                                changed = True
+                            elif z3.is_not(ch) and is_forall(ch.arg(0)):
+                                sk_ = _skolemize_not_forall(ch.arg(0))
+                                kids.append(z3.And(*sk_) if sk_ else z3.BoolVal(True))
+                                changed = True
+                            else:
+                                kids.append(ch)
+                        parts2.append(z3.Or(*kids) if changed else c)
+                    else:
+                        parts2.append(c)
+                for c in parts2:
                     if is_forall(c):
                         new_foralls.append(c)
                     elif has_quant(c):
@@ -355,6 +396,29 @@ class Instantiator:
 
 _PAT_CACHE = {}
 _CF_CACHE = {}
+_SKO_CACHE = {}
+
+
+def _skolemize_exists(c):
+    r = _SKO_CACHE.get(c.get_id())
+    if r is None:
+        vs = [z3.Const(f"wit!{c.var_name(i)}!{next(_sk)}", c.var_sort(i)) for i in range(c.num_vars())]
+        body = z3.substitute_vars(c.body(), *reversed(vs))
+        r = [x for x in split_and(z3.simplify(body)) if not z3.is_true(x)]
+        _SKO_CACHE[c.get_id()] = r
+        _KEEP.append(c)
+    return r
+
+
+def _skolemize_not_forall(q):
+    r = _SKO_CACHE.get(("n", q.get_id()))
+    if r is None:
+        vs = [z3.Const(f"wit!{q.var_name(i)}!{next(_sk)}", q.var_sort(i)) for i in range(q.num_vars())]
+        body = z3.Not(z3.substitute_vars(q.body(), *reversed(vs)))
+        r = [x for x in split_and(z3.simplify(body)) if not z3.is_true(x)]
+        _SKO_CACHE[("n", q.get_id())] = r
+        _KEEP.append(q)
+    return r
 
 
 def prepare(hyps, goal, extra_terms=(), rounds=6):
@@ -396,6 +460,7 @@ def product_hints(formulas):
     for divisions a div b (b > 0): b*(a div b) <= a < b*(a div b) + b"""
     prods = {}
     divs = {}
+    mods = []
     seen = set()
     stack = list(formulas)
     while stack:
@@ -417,8 +482,19 @@ def product_hints(formulas):
                 a, b = t.arg(0), t.arg(1)
                 if not z3.is_int_value(b):
                     divs[t.get_id()] = (a, b, t)
+            elif k == z3.Z3_OP_MOD and not has_var(t):
+                a, b = t.arg(0), t.arg(1)
+                if not z3.is_int_value(b):
+                    q = a / b
+                    divs[q.get_id()] = (a, b, q)
+                    mods.append((a, b, t, q))
             stack.extend(t.children())
     hints = []
+    for a, b, t, q in mods[:12]:
+        hints.append(z3.Implies(b > 0, z3.And(a == b * q + t, t >= 0, t < b)))
+        # a is a multiple of b as soon as it equals some product b*y of the query
+        for y, py in list(prods.get(b.get_id(), (b, {}))[1].values())[:8]:
+            hints.append(z3.Implies(z3.And(b > 0, a == py), t == 0))
     for a, b, t in list(divs.values())[:12]:
         hints.append(z3.Implies(b > 0, z3.And(b * t <= a, a < b * t + b)))
         prods.setdefault(b.get_id(), (b, {}))[1][t.get_id()] = (t, b * t)
@@ -496,21 +572,32 @@ def _model_text(s):
         return None
 
 
-def prove_part(hyps, g, t_ms, name):
+def prove_part(hyps, g, t_ms, name, goal_side=()):
     """prove  hyps ==> g  (g without top-level conjunction/forall): incremental
     instantiation rounds on one solver, then the full quantified query, then cvc5"""
     t0 = time.time()
     ground, quants = classify(hyps)
     neg = z3.Not(g)
+    if z3.is_quantifier(g) and g.is_exists():
+        # goal  exists x. B : its negation  forall x. not B  is a universally quantified hypothesis
+        vs = [z3.Const(f"ng!{g.var_name(i)}!{next(_sk)}", g.var_sort(i)) for i in range(g.num_vars())]
+        body = z3.substitute_vars(g.body(), *reversed(vs))
+        q = z3.ForAll(vs, z3.Not(body))
+        quants = list(quants) + [q]
+        neg = z3.BoolVal(True)
+        hyps = list(hyps) + [q]
     hq = bool(quants) or has_quant(neg)
     s = z3.Solver()
     for h in ground:
         s.add(h)
     s.add(neg)
     hints_done = set()
+    all_fs = []
 
     def add_hints(fs):
-        for h in product_hints(fs):
+        # hints relate products / quotients / remainders of the WHOLE query so far
+        all_fs.extend(fs)
+        for h in product_hints(all_fs):
             if h.get_id() not in hints_done:
                 hints_done.add(h.get_id())
                 s.add(h)
@@ -530,6 +617,26 @@ def prove_part(hyps, g, t_ms, name):
         return dict(status="unknown", backend="z3+cvc5", seconds=time.time() - t0, model=None,
                     detail=f"z3: {s.reason_unknown()}; cvc5: {why3}")
     cand = _model_text(s) if r == z3.sat else None
+    # stage 1: goal-directed instantiation (terms of the goal and of its antecedents only)
+    try:
+        ins1 = Instantiator(ground, quants, neg, seeds=list(goal_side))
+        n1 = 0
+        for rnd in range(4):
+            new = ins1.round()
+            if new:
+                n1 += len(new)
+                for c in new:
+                    s.add(c)
+                add_hints(new)
+                s.set("timeout", int(min(t_ms, 2500)))
+                r = s.check()
+                if r == z3.unsat:
+                    return dict(status="proved", backend="z3/inst", seconds=time.time() - t0, model=None,
+                                detail=f"goal-directed rounds={rnd + 1} instances={n1}")
+            if ins1.finished or n1 > 1500:
+                break
+    except Exception:
+        pass
     ins = Instantiator(ground, quants, neg)
     all_inst = []
     for rnd in range(7):
@@ -831,7 +938,7 @@ def _work(i):
         parts = strip_goal(o.goal)
         for k, (extra, g) in enumerate(parts):
             nm = o.name if len(parts) == 1 else f"{o.name}/{k}"
-            r = prove_part(list(o.hyps) + list(extra), g, _TIMEOUT[0], nm)
+            r = prove_part(list(o.hyps) + list(extra), g, _TIMEOUT[0], nm, goal_side=list(extra))
             r.update(name=nm, path=o.path_id, lineno=o.lineno, note=o.note, smt_b="")
             out.append(r)
     except Exception as e:
